@@ -3,6 +3,16 @@ NOTES = ("All claims are level 'other': each check decides structural necessary 
          "Genuine defects found are repaired by 'fix:' commits in /repo or listed in /verif/known_findings.json.")
 PENDING = "static rules for this property are designed (DESIGN.md §3) but not yet implemented in this revision; not claimed until they are"
 CLAIMS = {
+ "C08": {
+  "text": "Decides for every package-level helper taking an FS or File (30+ functions, found by signature) and the unexported functions only they reach: on every path on which a fallible call's error is non-nil, the helper returns it, wraps it, hands it on, returns another definitely non-nil error, or consumes it through an enumerated idiom whose context is resolved through the call graph; and that the all-capability-assertions-failed path returns ErrNotImplemented in a *PathError/*LinkError or enters the fallback. This is the clause 'a helper never reports success for work that was not done'; equality of results across the 2^k capability subsets is NOT decided.",
+  "note": "Trusted: go/types+go/ssa, the path enumeration (nil-ness facts only) and the enumerated idioms in drop.go; A1: dispatched methods return nil only when the work was done.",
+  "technique": "static analysis: bounded path enumeration with nil-ness facts from each fallible call's error edge (error-propagation / dropped-error analysis), call-graph contexts for accepted idioms",
+ },
+ "C14": {
+  "text": "Decides for packages keyvalue/mem: Commit results are never discarded and each element's Err is read (directly or by every caller of a forwarding function); every fallible call's error propagates on every failing path (fault injection at each store call index becomes following each error edge); a pointer/interface result that came with an error is never used; struct fields assigned together with an error are nil-tested before use; Transaction implementations store the store's error into the recorded result. The behavioural remainder (post-fault store view equals FS view, no hang) is NOT decided.",
+  "note": "Trusted: go/types+go/ssa, path enumeration and idiom list; A1 for Store/FileRecord implementations; examples/s3 cannot be loaded offline and is out of scope.",
+  "technique": "static analysis: dropped-error path analysis over SSA, def-use of Commit results, paired-field nil-guard rule",
+ },
  "C16": {
   "text": "Decides for every io/fs.File implementation whose ReadDir(n) computes its own window (keyvalue.file, cache.dir): an io.EOF exit exists under n>0 and a cursor/length test that every nil-error path with n>0 passes; every listing slice has bounds entailed by guards on every phi alternative; every paging path stores the cursor and stored values depend on the old cursor or the listing length; no n>0 path returns an unwindowed listing; listing failure is wrapped in *PathError; by-name listings are sorted by construction (io/fs.ReadDir fallback, ReadDirFS implementations return from sorting sources). Exactly-once delivery across pages as a value-level statement and agreement with Stat are NOT decided.",
   "note": "Trusted: go/types+go/ssa and the rule code; assumes the cursor is never negative (A8; what is stored into it is checked) and stdlib ReadDir sorts (A2).",
